@@ -218,14 +218,14 @@ Lemma call_own_bilinear a :
   f_kind a = Bilinear ->
   call a [PSeq (map ELeaf (f_trials a)); PSeq (map ELeaf (f_tests a))] [] = Ok (f_body a).
 Proof.
-  intros K. unfold call, values_of, count_ok. rewrite K. simpl. rewrite !map_length, !Nat.eqb_refl. simpl.
+  intros K. unfold call, call_with, values_of, count_ok. rewrite K. simpl. rewrite !map_length, !Nat.eqb_refl. simpl.
   unfold vars. rewrite <- map_app. f_equal. apply map_body_id. apply subst_self.
 Qed.
 
 Lemma call_own_linear a :
   f_kind a = Linear -> f_trials a = [] -> call a [PSeq (map ELeaf (f_tests a))] [] = Ok (f_body a).
 Proof.
-  intros K T. unfold call, count_ok, values_of. rewrite K. simpl. unfold vars. rewrite T. simpl.
+  intros K T. unfold call, call_with, count_ok, values_of. rewrite K. simpl. unfold vars. rewrite T. simpl.
   rewrite map_length, Nat.eqb_refl. f_equal. apply map_body_id. apply subst_self.
 Qed.
 
@@ -235,7 +235,7 @@ Lemma call_own_single a u v :
   call a [PVal (ELeaf u); PVal (ELeaf v)] [] = Ok (f_body a).
 Proof.
   intros K T1 T2. pose proof (call_own_bilinear a K) as H. rewrite T1, T2 in H.
-  unfold call, values_of, count_ok in *. rewrite K in *. rewrite T1, T2 in *. simpl in *. exact H.
+  unfold call, call_with, values_of, count_ok in *. rewrite K in *. rewrite T1, T2 in *. simpl in *. exact H.
 Qed.
 
 (* ------------------------------------------------------------------ what a call leaves untouched *)
@@ -244,7 +244,7 @@ Proof. unfold map_body. rewrite map_map. reflexivity. Qed.
 
 Lemma call_regions a pos kw b : call a pos kw = Ok b -> map fst b = map fst (f_body a).
 Proof.
-  unfold call. destruct (values_of a pos); [|discriminate].
+  unfold call, call_with. destruct (values_of a pos); [|discriminate].
   destruct (kw_dict (free_vars a) kw); [|discriminate].
   destruct (count_ok a pos); [|discriminate].
   intros H. inversion H; subst. apply map_body_regions.
@@ -254,7 +254,7 @@ Qed.
 Lemma call_positional a pos vals :
   values_of a pos = Some vals -> count_ok a pos = true ->
   call a pos [] = Ok (map_body (subst_sim (combine (vars a) vals)) (f_body a)).
-Proof. intros H C. unfold call. rewrite H, C. reflexivity. Qed.
+Proof. intros H C. unfold call, call_with. rewrite H, C. reflexivity. Qed.
 
 (* ... under which every leaf that is not a declared variable (free field, constant, coordinate,
    number, any other atom) is a fixed point, *)
@@ -298,12 +298,20 @@ Proof.
 Qed.
 
 (* a keyword can only ever name a free field or a constant, never a declared argument *)
+Lemma pymem_lmem k l : pymem k l = false -> lmem k l = false.
+Proof.
+  unfold pymem, lmem. induction l as [|x r IH]; simpl; auto. intros H.
+  apply orb_false_iff in H. destruct H as [H1 H2]. rewrite (IH H2), orb_false_r.
+  destruct (leaf_eqb k x) eqn:E; auto. apply leaf_eqb_eq in E. subst.
+  destruct x; simpl in H1; rewrite ?Bool.eqb_reflx, ?String.eqb_refl, ?Z.eqb_refl, ?Pos.eqb_refl in H1; discriminate.
+Qed.
+
 Lemma free_var_not_declared a x :
   In x (free_vars a) -> (is_fun x = true /\ lmem x (vars a) = false) \/ is_const x = true.
 Proof.
   unfold free_vars, fields, constants. rewrite in_app_iff, !filter_In.
   intros [[_ H]|[_ H]]; auto. apply andb_true_iff in H. destruct H as [H1 H2].
-  left. split; auto. now apply negb_true_iff.
+  left. split; auto. apply pymem_lmem. now apply negb_true_iff.
 Qed.
 
 Lemma kw_never_names_argument a n x :
@@ -325,18 +333,48 @@ Lemma call_unknown_kw a pos kw n v :
   values_of a pos <> None -> In (n, v) kw -> find_name n (free_vars a) = None ->
   call a pos kw = Err ErrUnknownKw.
 Proof.
-  intros Hp Hin Hn. unfold call. destruct (values_of a pos); [|congruence].
+  intros Hp Hin Hn. unfold call, call_with. destruct (values_of a pos); [|congruence].
   now rewrite (kw_dict_unknown _ _ _ _ Hin Hn).
+Qed.
+
+(* the keys of the keyword dictionary are free variables registered under a keyword's name *)
+Lemma kw_dict_keys fv kw d x w :
+  kw_dict fv kw = Some d -> lookup d x = Some w -> In x fv /\ In (leaf_name x, w) kw.
+Proof.
+  revert d. induction kw as [|[n v] r IH]; intros d Hd Hl; cbn [kw_dict] in Hd.
+  - inversion Hd; subst. discriminate.
+  - destruct (find_name n fv) as [y|] eqn:Ef; [|discriminate].
+    destruct (kw_dict fv r) as [d'|]; [|discriminate]. injection Hd as <-.
+    cbn [lookup] in Hl. destruct (lookup d' x) as [w'|] eqn:E'.
+    + inversion Hl; subst. destruct (IH d' eq_refl E'). split; auto. now right.
+    + destruct (leaf_eqb x y) eqn:Ex; [|discriminate]. inversion Hl; subst. apply leaf_eqb_eq in Ex. subst y.
+      apply find_name_In in Ef. destruct Ef as [H1 H2]. subst. split; auto. now left.
 Qed.
 
 (* a wrong number of values is refused (after the unknown-keyword test, as in the code) *)
 Lemma call_wrong_count a pos kw vals d :
   values_of a pos = Some vals -> kw_dict (free_vars a) kw = Some d -> count_ok a pos = false ->
   call a pos kw = Err ErrCount.
-Proof. intros Hv Hd Hc. unfold call. now rewrite Hv, Hd, Hc. Qed.
+Proof. intros Hv Hd Hc. unfold call, call_with. now rewrite Hv, Hd, Hc. Qed.
 
 (* FULL statement: whenever a call succeeds it is ONE simultaneous substitution, keywords and arguments
-   together, with exactly one value per declared argument *)
+   together, with exactly one value per declared argument (whatever builds the keyword dictionary) *)
+Lemma call_with_simultaneous fv kd a pos kw b :
+  call_with fv kd a pos kw = Ok b ->
+  exists vals d, values_of a pos = Some vals /\ kd fv kw = Some d /\
+                 length vals = length (vars a) /\
+                 b = map_body (subst_sim (d ++ combine (vars a) vals)) (f_body a) /\
+                 forall (I : interp) rho,
+                   sem_body I rho b = sem_body I (upd I rho (d ++ combine (vars a) vals)) (f_body a).
+Proof.
+  unfold call_with. destruct (values_of a pos) as [vals|] eqn:Hv; [|discriminate].
+  destruct (kd fv kw) as [d|] eqn:Hd; [|discriminate].
+  destruct (count_ok a pos) eqn:Hc; [|discriminate].
+  intros H. inversion H; subst. exists vals, d. repeat split; auto.
+  - eapply count_ok_length; eauto.
+  - intros. apply sem_body_subst.
+Qed.
+
 Lemma call_simultaneous a pos kw b :
   call a pos kw = Ok b ->
   exists vals d, values_of a pos = Some vals /\ kw_dict (free_vars a) kw = Some d /\
@@ -344,14 +382,7 @@ Lemma call_simultaneous a pos kw b :
                  b = map_body (subst_sim (d ++ combine (vars a) vals)) (f_body a) /\
                  forall (I : interp) rho,
                    sem_body I rho b = sem_body I (upd I rho (d ++ combine (vars a) vals)) (f_body a).
-Proof.
-  unfold call. destruct (values_of a pos) as [vals|] eqn:Hv; [|discriminate].
-  destruct (kw_dict (free_vars a) kw) as [d|] eqn:Hd; [|discriminate].
-  destruct (count_ok a pos) eqn:Hc; [|discriminate].
-  intros H. inversion H; subst. exists vals, d. repeat split; auto.
-  - eapply count_ok_length; eauto.
-  - intros. apply sem_body_subst.
-Qed.
+Proof. apply call_with_simultaneous. Qed.
 
 Lemma body_leaves_subst s b :
   body_leaves (map_body (subst_sim s) b) =
@@ -460,22 +491,22 @@ Lemma call_before_fix_partial a pos kw vals d :
   cleanb d (combine (vars a) vals) = true -> count_ok a pos = true ->
   call_before_fix a pos kw = call a pos kw.
 Proof.
-  intros Hv Hd Hc Hn. unfold call, call_before_fix. rewrite Hv, Hd, Hn.
+  intros Hv Hd Hc Hn. unfold call, call_with, call_before_fix. rewrite Hv, Hd, Hn.
   rewrite (update_free_clean _ _ _ _ _ Hd Hc). f_equal. rewrite map_body_comp. apply map_body_ext.
   apply subst_comp. now apply clean_app.
 Qed.
 
 (* historical: without that guard the code before the repairs did something else; two witnesses *)
-Definition wu := LFun false "u".  Definition wv := LFun false "v".
-Definition wf := LFun false "f".  Definition ww := LFun false "w".
+Definition wu := LFun false "u" "V".  Definition wv := LFun false "v" "V".
+Definition wf := LFun false "f" "V".  Definition ww := LFun false "w" "V".
 Definition wc := LConst "c".      Definition wk := LConst "k".
 
 (* l = LinearForm(v, integral(f*v));  l(w, f=v): the keyword value v is then replaced by w *)
-Definition wit_lin : form := mkForm Linear [] [wv] [("dom:Omega", EMul [ELeaf wf; ELeaf wv])].
+Definition wit_lin : form := mkForm Linear [] [wv] [("dom:Omega", EMul [ELeaf wf; ELeaf wv])] [wf; wv].
 (* a = BilinearForm((u,v), integral(c*u*v) + integral_b(k*u*v));  a(u, v, c=k, k=c) *)
 Definition wit_bil : form :=
   mkForm Bilinear [wu] [wv] [("dom:Omega", EMul [ELeaf wc; ELeaf wu; ELeaf wv]);
-                             ("bnd:Omega:G:0:1", EMul [ELeaf wk; ELeaf wu; ELeaf wv])].
+                             ("bnd:Omega:G:0:1", EMul [ELeaf wk; ELeaf wu; ELeaf wv])] [wu; wv].
 
 Lemma call_kw_then_args_before_fix :
   call_before_fix wit_lin [PVal (ELeaf ww)] [("f", ELeaf wv)] = Ok [("dom:Omega", EMul [ELeaf ww; ELeaf ww])] /\
@@ -638,39 +669,522 @@ Definition exch_args (a : form) : list parg := [PSeq (map ELeaf (f_tests a)); PS
 Definition exch_dict (a : form) : dict :=
   combine (f_trials a ++ f_tests a) (map ELeaf (f_tests a) ++ map ELeaf (f_trials a)).
 
-Lemma is_symmetric_sound (I : interp) a :
-  is_symmetric a = true ->
+(* the two bodies that the flag compares: the form's own body and its body with trial and test functions exchanged *)
+Lemma flag_bodies a x y :
+  f_kind a = Bilinear -> call a (own_args a) [] = Ok x -> call a (exch_args a) [] = Ok y ->
+  x = f_body a /\ y = map_body (subst_sim (exch_dict a)) (f_body a).
+Proof.
+  intros K Hx Hy. unfold own_args in Hx. rewrite (call_own_bilinear a K) in Hx. inversion Hx; subst x. split; auto.
+  destruct (call_simultaneous _ _ _ _ Hy) as [vals [d [Hv [Hd [_ [Eb _]]]]]].
+  unfold exch_args, values_of in Hv. rewrite K in Hv. simpl in Hv. inversion Hv; subst vals.
+  simpl in Hd. inversion Hd; subst d. simpl in Eb. now subst y.
+Qed.
+
+(* ---- the flag of the proposed repair (identities): sound for every form *)
+Lemma is_symmetric_ids_sound (I : interp) a :
+  is_symmetric_ids a = true ->
   forall rho, sem_result I rho (call a (own_args a) []) = sem_result I rho (call a (exch_args a) []).
 Proof.
-  unfold is_symmetric, own_args, exch_args. destruct (f_kind a); [|discriminate].
+  unfold is_symmetric_ids, own_args, exch_args. destruct (f_kind a); [|discriminate].
   destruct (call a _ []) as [x|]; [|discriminate].
   destruct (call a _ []) as [y|]; [|discriminate].
   intros H rho. simpl. f_equal. now apply struct_eq_sem.
 Qed.
 
-(* in terms of the form itself: when the flag is true, exchanging the VALUES of trial and test
-   functions in the environment does not change the value of the form *)
-Lemma is_symmetric_exchange (I : interp) a :
-  is_symmetric a = true ->
+Lemma is_symmetric_ids_exchange (I : interp) a :
+  is_symmetric_ids a = true ->
   forall rho, sem_body I (upd I rho (exch_dict a)) (f_body a) = sem_body I rho (f_body a).
 Proof.
-  intros H rho. pose proof (is_symmetric_sound I a H rho) as S.
-  unfold is_symmetric in H. destruct (f_kind a) eqn:K; [|discriminate].
-  unfold own_args in S. rewrite (call_own_bilinear a K) in S.
-  unfold own_args, exch_args in H. rewrite (call_own_bilinear a K) in H.
-  unfold exch_args in S.
-  destruct (call a [PSeq (map ELeaf (f_tests a)); PSeq (map ELeaf (f_trials a))] []) as [y|] eqn:Ey; [|discriminate].
-  destruct (call_simultaneous _ _ _ _ Ey) as [vals [d [Hv [Hd [_ [Eb _]]]]]].
-  unfold values_of in Hv. rewrite K in Hv. simpl in Hv. inversion Hv; subst vals.
-  simpl in Hd. inversion Hd; subst d. simpl in Eb. subst y.
-  simpl in S. inversion S as [S']. rewrite S'. unfold exch_dict, vars. now rewrite sem_body_subst.
+  intros H rho. pose proof (is_symmetric_ids_sound I a H rho) as S.
+  unfold is_symmetric_ids in H. destruct (f_kind a) eqn:K; [|discriminate].
+  fold (own_args a) in H. fold (exch_args a) in H.
+  destruct (call a (own_args a) []) as [x|] eqn:Ex; [|discriminate].
+  destruct (call a (exch_args a) []) as [y|] eqn:Ey; [|discriminate].
+  destruct (flag_bodies a x y K Ex Ey) as [-> ->].
+  simpl in S. inversion S as [S']. rewrite S'. now rewrite sem_body_subst.
 Qed.
 
-(* the flag is never true for a form whose meaning changes under exchange *)
-Lemma meaning_changes_flag_false (I : interp) a rho :
+(* ---- the flag of the code (== alone).  Names as identities: no two distinct function / constant symbols of the
+   form carry one name.  Under this guard == and identity agree on the form. *)
+Definition sym_leaf (l : leaf) : bool := is_fun l || is_const l.
+Definition names_identify (L : list leaf) : Prop :=
+  forall x y, In x L -> In y L -> sym_leaf x = true -> sym_leaf y = true -> leaf_name x = leaf_name y -> x = y.
+Definition form_leaves (a : form) : list leaf := vars a ++ body_leaves (f_body a) ++ f_atoms a.
+
+Lemma erase_injective L x y :
+  names_identify L -> In x L -> In y L -> erase_leaf x = erase_leaf y -> x = y.
+Proof.
+  intros G Hx Hy E. destruct x, y; simpl in E; try discriminate; try exact E.
+  inversion E; subst. apply G; auto.
+Qed.
+
+Fixpoint unerase (L : list leaf) (k : leaf) : option leaf :=
+  match L with
+  | [] => None
+  | l :: r => if leaf_eqb (erase_leaf l) k then Some l else unerase r k
+  end.
+Definition rho_e (I : interp) (rho : leaf -> V I) (L : list leaf) : leaf -> V I :=
+  fun k => match unerase L k with Some l => rho l | None => rho k end.
+
+Lemma unerase_in L0 : names_identify L0 -> forall L l, incl L L0 -> In l L -> unerase L (erase_leaf l) = Some l.
+Proof.
+  intros G. induction L as [|l0 r IH]; intros l Hi Hl; [contradiction|]. simpl.
+  destruct (leaf_eqb (erase_leaf l0) (erase_leaf l)) eqn:E.
+  - apply leaf_eqb_eq in E. f_equal. apply (erase_injective L0); auto; apply Hi; auto. now left.
+  - destruct Hl as [->|Hl]; [now rewrite leaf_eqb_refl in E|].
+    apply IH; auto. intros z Hz. apply Hi. now right.
+Qed.
+
+Lemma sem_erase (I : interp) rho L e :
+  names_identify L -> (forall l, In l (leaves e) -> In l L) -> sem I (rho_e I rho L) (erase e) = sem I rho e.
+Proof.
+  intros G. induction e using expr_ind'; simpl; intros Hl.
+  - unfold rho_e. rewrite (unerase_in L G L l); auto. apply incl_refl.
+  - f_equal. rewrite map_map. apply map_ext_Forall. revert Hl. induction H as [|x r Hx Hr IH]; simpl; intros Hl; constructor.
+    + apply Hx. intros; apply Hl. apply in_or_app; auto.
+    + apply IH. intros; apply Hl. apply in_or_app; auto.
+  - f_equal. rewrite map_map. apply map_ext_Forall. revert Hl. induction H as [|x r Hx Hr IH]; simpl; intros Hl; constructor.
+    + apply Hx. intros; apply Hl. apply in_or_app; auto.
+    + apply IH. intros; apply Hl. apply in_or_app; auto.
+  - rewrite IHe1, IHe2; auto; intros; apply Hl; apply in_or_app; auto.
+  - f_equal. rewrite map_map. apply map_ext_Forall. revert Hl. induction H as [|x r Hx Hr IH]; simpl; intros Hl; constructor.
+    + apply Hx. intros; apply Hl. apply in_or_app; auto.
+    + apply IH. intros; apply Hl. apply in_or_app; auto.
+Qed.
+
+Lemma sem_body_erase (I : interp) rho L b :
+  names_identify L -> (forall l, In l (body_leaves b) -> In l L) ->
+  sem_body I (rho_e I rho L) (map_body erase b) = sem_body I rho b.
+Proof.
+  intros G. induction b as [|[r e] t IH]; simpl; intros Hl; auto.
+  unfold sem_body in *. simpl. unfold body_leaves in Hl. simpl in Hl.
+  rewrite IH by (intros; apply Hl; apply in_or_app; auto).
+  rewrite sem_erase; auto. intros; apply Hl; apply in_or_app; auto.
+Qed.
+
+Lemma struct_pyeq_sem (I : interp) rho L b1 b2 :
+  names_identify L -> (forall l, In l (body_leaves b1) -> In l L) -> (forall l, In l (body_leaves b2) -> In l L) ->
+  struct_pyeq b1 b2 = true -> sem_body I rho b1 = sem_body I rho b2.
+Proof.
+  intros G H1 H2 E. unfold struct_pyeq in E.
+  rewrite <- (sem_body_erase I rho L b1 G H1), <- (sem_body_erase I rho L b2 G H2).
+  now apply struct_eq_sem.
+Qed.
+
+Lemma lookup_combine_in ks : forall vs k v, lookup (combine ks vs) k = Some v -> In v vs.
+Proof.
+  induction ks as [|x r IH]; intros [|w ws] k v H; simpl in H; try discriminate.
+  destruct (lookup (combine r ws) k) eqn:E.
+  - inversion H; subst. right. eapply IH; eauto.
+  - destruct (leaf_eqb k x); [|discriminate]. inversion H. now left.
+Qed.
+
+Lemma exchanged_leaves a l :
+  In l (body_leaves (map_body (subst_sim (exch_dict a)) (f_body a))) -> In l (vars a ++ body_leaves (f_body a)).
+Proof.
+  rewrite body_leaves_subst. intros H. apply in_flat_map in H. destruct H as [k [Hk Hin]].
+  destruct (lookup (exch_dict a) k) as [v|] eqn:E.
+  - unfold exch_dict in E. apply lookup_combine_in in E. rewrite <- map_app in E.
+    apply in_map_iff in E. destruct E as [w [<- Hw]]. simpl in Hin. destruct Hin as [<-|[]].
+    apply in_or_app. left. unfold vars. apply in_app_or in Hw. apply in_or_app. tauto.
+  - simpl in Hin. destruct Hin as [<-|[]]. apply in_or_app. now right.
+Qed.
+
+(* PARTIAL (the full statement is refuted below): when names are identities in the form, a true flag is sound *)
+Lemma is_symmetric_sound_partial (I : interp) a :
+  names_identify (vars a ++ body_leaves (f_body a)) -> is_symmetric a = true ->
+  forall rho, sem_result I rho (call a (own_args a) []) = sem_result I rho (call a (exch_args a) []).
+Proof.
+  intros G. unfold is_symmetric. fold (own_args a). fold (exch_args a). destruct (f_kind a) eqn:K; [|discriminate].
+  destruct (call a (own_args a) []) as [x|] eqn:Ex; [|discriminate].
+  destruct (call a (exch_args a) []) as [y|] eqn:Ey; [|discriminate].
+  intros H rho. simpl. f_equal. destruct (flag_bodies a x y K Ex Ey) as [-> ->].
+  apply (struct_pyeq_sem I rho _ _ _ G); auto.
+  - intros l Hl. apply in_or_app. now right.
+  - apply exchanged_leaves.
+Qed.
+
+Lemma is_symmetric_exchange_partial (I : interp) a :
+  names_identify (vars a ++ body_leaves (f_body a)) -> is_symmetric a = true ->
+  forall rho, sem_body I (upd I rho (exch_dict a)) (f_body a) = sem_body I rho (f_body a).
+Proof.
+  intros G H rho. pose proof (is_symmetric_sound_partial I a G H rho) as S.
+  unfold is_symmetric in H. fold (own_args a) in H. fold (exch_args a) in H. destruct (f_kind a) eqn:K; [|discriminate].
+  destruct (call a (own_args a) []) as [x|] eqn:Ex; [|discriminate].
+  destruct (call a (exch_args a) []) as [y|] eqn:Ey; [|discriminate].
+  destruct (flag_bodies a x y K Ex Ey) as [-> ->].
+  simpl in S. inversion S as [S']. rewrite S'. now rewrite sem_body_subst.
+Qed.
+
+(* under the guard the flag is never true for a form whose meaning changes under exchange *)
+Lemma meaning_changes_flag_false_partial (I : interp) a rho :
+  names_identify (vars a ++ body_leaves (f_body a)) ->
   sem_body I (upd I rho (exch_dict a)) (f_body a) <> sem_body I rho (f_body a) -> is_symmetric a = false.
 Proof.
-  intros H. destruct (is_symmetric a) eqn:E; auto. exfalso. apply H. now apply is_symmetric_exchange.
+  intros G H. destruct (is_symmetric a) eqn:E; auto. exfalso. apply H. now apply is_symmetric_exchange_partial.
+Qed.
+
+Lemma meaning_changes_flag_ids_false (I : interp) a rho :
+  sem_body I (upd I rho (exch_dict a)) (f_body a) <> sem_body I rho (f_body a) -> is_symmetric_ids a = false.
+Proof.
+  intros H. destruct (is_symmetric_ids a) eqn:E; auto. exfalso. apply H. now apply is_symmetric_ids_exchange.
+Qed.
+
+(* ------------------------------------------------------------------ the identity of a function includes its space *)
+Lemma leaf_pyeq_refl a : leaf_pyeq a a = true.
+Proof. destruct a; simpl; rewrite ?Bool.eqb_reflx, ?String.eqb_refl, ?Z.eqb_refl, ?Pos.eqb_refl; reflexivity. Qed.
+
+Lemma leaf_eqb_pyeq a b : leaf_eqb a b = true -> leaf_pyeq a b = true.
+Proof. intros H. apply leaf_eqb_eq in H. subst. apply leaf_pyeq_refl. Qed.
+
+(* two functions with the same class and name in different spaces: equal for ==, different dictionary keys *)
+Lemma twin_keys v n s s' : s <> s' ->
+  leaf_pyeq (LFun v n s) (LFun v n s') = true /\ leaf_eqb (LFun v n s) (LFun v n s') = false /\ LFun v n s <> LFun v n s'.
+Proof.
+  intros H. split; [|split].
+  - simpl. now rewrite Bool.eqb_reflx, String.eqb_refl.
+  - apply leaf_eqb_neq. congruence.
+  - congruence.
+Qed.
+
+(* the i-th declared argument is bound to the i-th value, exactly *)
+Lemma lookup_combine_nth ks : forall vs i k v,
+  NoDup ks -> nth_error ks i = Some k -> nth_error vs i = Some v -> lookup (combine ks vs) k = Some v.
+Proof.
+  induction ks as [|x r IH]; intros vs i k v Hnd Hk Hv; [destruct i; discriminate|].
+  destruct vs as [|w ws]; [destruct i; discriminate|]. inversion Hnd as [|? ? Hx Hr]; subst. simpl.
+  destruct i as [|i]; simpl in Hk, Hv.
+  - inversion Hk; inversion Hv; subst. rewrite lookup_combine_none.
+    + now rewrite leaf_eqb_refl.
+    + destruct (lmem k r) eqn:E; auto. apply lmem_In in E. contradiction.
+  - now rewrite (IH ws i k v Hr Hk Hv).
+Qed.
+
+Lemma positional_exact a vals i l v :
+  NoDup (vars a) -> nth_error (vars a) i = Some l -> nth_error vals i = Some v ->
+  subst_sim (combine (vars a) vals) (ELeaf l) = v.
+Proof. intros Hn Hl Hv. apply subst_sim_hit. eapply lookup_combine_nth; eauto. Qed.
+
+(* a value that carries the name of the declared argument but lives in another space replaces it like any other
+   value, and a same-named function of another space that sits in the form is not an argument: it stays *)
+Lemma twin_value_replaces a vals i v n s s' :
+  NoDup (vars a) -> nth_error (vars a) i = Some (LFun v n s) -> nth_error vals i = Some (ELeaf (LFun v n s')) ->
+  subst_sim (combine (vars a) vals) (ELeaf (LFun v n s)) = ELeaf (LFun v n s').
+Proof. apply positional_exact. Qed.
+
+Lemma twin_in_form_untouched a vals v n s' :
+  ~ In (LFun v n s') (vars a) ->
+  subst_sim (combine (vars a) vals) (ELeaf (LFun v n s')) = ELeaf (LFun v n s').
+Proof.
+  intros H. apply positional_fixes. destruct (lmem _ (vars a)) eqn:E; auto. apply lmem_In in E. contradiction.
+Qed.
+
+Lemma subst_sim_ext_leaf s t :
+  (forall l, subst_sim s (ELeaf l) = subst_sim t (ELeaf l)) -> forall e, subst_sim s e = subst_sim t e.
+Proof.
+  intros H. induction e using expr_ind'.
+  - apply H.
+  - simpl. f_equal. now apply map_ext_Forall.
+  - simpl. f_equal. now apply map_ext_Forall.
+  - simpl. now rewrite IHe1, IHe2.
+  - simpl. f_equal. now apply map_ext_Forall.
+Qed.
+
+Lemma subst_sim_ext s t : (forall l, lookup s l = lookup t l) -> forall e, subst_sim s e = subst_sim t e.
+Proof. intros H. apply subst_sim_ext_leaf. intros l. simpl. now rewrite H. Qed.
+
+Lemma free_var_not_in_vars a x :
+  (forall y, In y (vars a) -> is_fun y = true) -> In x (free_vars a) -> lmem x (vars a) = false.
+Proof.
+  intros Hf Hx. destruct (free_var_not_declared a x Hx) as [[_ H]|H]; auto.
+  destruct (lmem x (vars a)) eqn:E; auto. apply lmem_In in E. apply Hf in E. destruct x; discriminate.
+Qed.
+
+(* calling a form with its own arguments and keywords is the keyword update alone (_update_free_variables) *)
+Lemma call_own_keywords a kw :
+  f_kind a = Bilinear -> (forall x, In x (vars a) -> is_fun x = true) ->
+  call a (own_args a) kw = update_free_variables a kw.
+Proof.
+  intros K Hfun. unfold call, call_with, update_free_variables, own_args, values_of, count_ok. rewrite K.
+  destruct (kw_dict (free_vars a) kw) as [d|] eqn:Hd; auto.
+  simpl. rewrite !map_length, !Nat.eqb_refl. simpl. f_equal. apply map_body_ext.
+  apply subst_sim_ext_leaf. intros l. unfold vars. rewrite <- map_app. fold (vars a).
+  simpl. rewrite lookup_app. destruct (lookup (combine (vars a) (map ELeaf (vars a))) l) as [w|] eqn:E.
+  - pose proof (lookup_self _ _ _ E) as ->.
+    destruct (lookup d l) as [w'|] eqn:E'; auto. exfalso.
+    destruct (kw_dict_keys _ _ _ _ _ Hd E') as [H1 _].
+    pose proof (free_var_not_in_vars a l Hfun H1) as Hn.
+    rewrite (lookup_combine_none _ _ _ Hn) in E. discriminate.
+  - reflexivity.
+Qed.
+
+(* ---- keywords in the code: ONE symbol per name.  The statement "a keyword replaces every free field / constant that
+   carries its name" is refuted below; it holds when the names of the free symbols are unambiguous *)
+Definition unambiguous (fv : list leaf) : Prop :=
+  forall x y, In x fv -> In y fv -> leaf_name x = leaf_name y -> x = y.
+
+Lemma find_name_some n l x : In x l -> leaf_name x = n -> find_name n l <> None.
+Proof.
+  induction l as [|y r IH]; simpl; [contradiction|]. intros [->|H] Hn.
+  - destruct (find_name n r); [discriminate|]. rewrite <- Hn, String.eqb_refl. discriminate.
+  - destruct (find_name n r) eqn:E; [discriminate|]. exfalso. now apply (IH H Hn).
+Qed.
+
+Lemma find_name_unamb fv n x : unambiguous fv -> In x fv -> leaf_name x = n -> find_name n fv = Some x.
+Proof.
+  intros Hu Hx Hn. destruct (find_name n fv) as [y|] eqn:E.
+  - apply find_name_In in E. destruct E as [Hy Hyn]. f_equal. apply Hu; auto. congruence.
+  - exfalso. now apply (find_name_some n fv x Hx Hn).
+Qed.
+
+Lemma kw_dict_binds_unamb fv kw d n v x :
+  unambiguous fv -> kw_dict fv kw = Some d -> NoDup (map fst kw) -> In (n, v) kw -> In x fv -> leaf_name x = n ->
+  lookup d x = Some v.
+Proof.
+  intros Hu. revert d. induction kw as [|[m w] r IH]; intros d Hd Hnd Hin Hx Hn; cbn [kw_dict] in Hd; simpl in Hnd, Hin; [contradiction|].
+  destruct (find_name m fv) as [y|] eqn:Ef; [|discriminate].
+  destruct (kw_dict fv r) as [d'|] eqn:Ed; [|discriminate]. injection Hd as <-.
+  apply NoDup_cons_iff in Hnd. destruct Hnd as [Hm Hnd']. cbn [lookup].
+  destruct Hin as [E|Hin].
+  - injection E as -> ->. destruct (lookup d' x) as [w'|] eqn:E'.
+    + exfalso. destruct (kw_dict_keys _ _ _ _ _ Ed E') as [_ H]. apply Hm. apply (in_map fst) in H. simpl in H. now rewrite Hn in H.
+    + rewrite (find_name_unamb fv n x Hu Hx Hn) in Ef. injection Ef as <-. now rewrite leaf_eqb_refl.
+  - now rewrite (IH d' eq_refl Hnd' Hin Hx Hn).
+Qed.
+
+(* the TRUE free symbols of a form (what the property speaks about): a function of the integrands that is not a declared
+   argument (as an identity), or a constant of the integrands *)
+Definition true_free (a : form) (x : leaf) : Prop :=
+  In x (body_leaves (f_body a)) /\ ((is_fun x = true /\ ~ In x (vars a)) \/ is_const x = true).
+(* f_atoms is the set of the functions of the integrands (in some order) *)
+Definition atoms_ok (a : form) : Prop :=
+  forall l, In l (f_atoms a) <-> (is_fun l = true /\ In l (body_leaves (f_body a))).
+
+Lemma leaf_pyeq_name x y : leaf_pyeq x y = true -> is_fun x = true -> is_fun y = true /\ leaf_name x = leaf_name y.
+Proof.
+  destruct x, y; simpl; try discriminate. intros H _. apply andb_true_iff in H. destruct H as [_ H].
+  apply String.eqb_eq in H. auto.
+Qed.
+
+Lemma true_free_is_free a x :
+  names_identify (form_leaves a) -> atoms_ok a -> true_free a x -> In x (free_vars a).
+Proof.
+  intros G Ha [Hb [[Hf Hv]|Hc]]; unfold free_vars; apply in_or_app.
+  - left. unfold fields. apply filter_In. split; [apply Ha; auto|]. rewrite Hf. simpl. apply negb_true_iff.
+    destruct (pymem x (vars a)) eqn:E; auto. exfalso. unfold pymem in E. apply existsb_exists in E.
+    destruct E as [y [Hy Hp]]. destruct (leaf_pyeq_name x y Hp Hf) as [Hfy Hn]. apply Hv.
+    assert (x = y); [|now subst]. apply G; auto.
+    + unfold form_leaves. apply in_or_app. right. apply in_or_app. now left.
+    + unfold form_leaves. apply in_or_app. now left.
+    + unfold sym_leaf. now rewrite Hf.
+    + unfold sym_leaf. now rewrite Hfy.
+  - right. unfold constants. apply filter_In. auto.
+Qed.
+
+Lemma free_vars_in_form a x : In x (free_vars a) -> In x (form_leaves a).
+Proof.
+  unfold free_vars, fields, constants, form_leaves. rewrite !in_app_iff, !filter_In. intuition.
+Qed.
+
+Lemma free_var_sym a x : In x (free_vars a) -> sym_leaf x = true.
+Proof.
+  intros H. unfold sym_leaf. destruct (free_var_not_declared a x H) as [[E _]|E]; rewrite E; auto. apply orb_true_r.
+Qed.
+
+Lemma names_identify_unambiguous a : names_identify (form_leaves a) -> unambiguous (free_vars a).
+Proof.
+  intros G x y Hx Hy Hn. apply G; auto using free_vars_in_form, (free_var_sym a).
+Qed.
+
+(* EXACT description of a successful call, PARTIAL in its second clause (guard: names are identities in the form):
+   the i-th declared argument becomes the i-th value, every TRUE free symbol that carries the name of a keyword
+   becomes that keyword's value, every other leaf stays *)
+Lemma call_exact_partial a pos kw b :
+  call a pos kw = Ok b -> NoDup (vars a) -> NoDup (map fst kw) -> (forall x, In x (vars a) -> is_fun x = true) ->
+  exists vals S, values_of a pos = Some vals /\ length vals = length (vars a) /\
+    b = map_body (subst_sim S) (f_body a) /\
+    (forall i l v, nth_error (vars a) i = Some l -> nth_error vals i = Some v -> subst_sim S (ELeaf l) = v) /\
+    (names_identify (form_leaves a) -> atoms_ok a ->
+     forall x v, true_free a x -> In (leaf_name x, v) kw -> subst_sim S (ELeaf x) = v) /\
+    (forall l, ~ In l (vars a) -> ~ (In l (free_vars a) /\ In (leaf_name l) (map fst kw)) ->
+               subst_sim S (ELeaf l) = ELeaf l).
+Proof.
+  intros H Hnd Hkw Hfun. destruct (call_simultaneous a pos kw b H) as [vals [d [Hv [Hd [Hlen [Eb _]]]]]].
+  exists vals, (d ++ combine (vars a) vals). repeat split; auto.
+  - intros i l v Hl Hvi. apply subst_sim_hit. rewrite lookup_app.
+    now rewrite (lookup_combine_nth _ _ _ _ _ Hnd Hl Hvi).
+  - intros G Ha x v Hx Hin. pose proof (true_free_is_free a x G Ha Hx) as Hfx.
+    apply subst_sim_hit. rewrite lookup_app.
+    rewrite (lookup_combine_none _ vals _ (free_var_not_in_vars a x Hfun Hfx)).
+    eapply kw_dict_binds_unamb; eauto. now apply names_identify_unambiguous.
+  - intros l Hl Hk. apply subst_sim_miss. rewrite lookup_app. rewrite lookup_combine_none.
+    + destruct (lookup d l) as [w|] eqn:E; auto. exfalso. apply Hk.
+      destruct (kw_dict_keys _ _ _ _ _ Hd E) as [H1 H2]. split; auto. now apply (in_map fst) in H2.
+    + destruct (lmem l (vars a)) eqn:E; auto. apply lmem_In in E. contradiction.
+Qed.
+
+(* under the guard a keyword that names a true free symbol is never refused for that reason *)
+Lemma true_free_keyword_known a x :
+  names_identify (form_leaves a) -> atoms_ok a -> true_free a x -> find_name (leaf_name x) (free_vars a) <> None.
+Proof. intros G Ha Hx. eapply find_name_some; eauto using true_free_is_free. Qed.
+
+(* ---- the proposed repair (identities): every free symbol that carries the name, no guard *)
+Lemma named_In n l x : In x (named n l) <-> In x l /\ leaf_name x = n.
+Proof.
+  unfold named. rewrite filter_In. rewrite String.eqb_eq. intuition.
+Qed.
+
+Lemma named_nil_find n l : named n l = [] <-> find_name n l = None.
+Proof.
+  induction l as [|x r IH]; simpl; [tauto|].
+  destruct (String.eqb n (leaf_name x)) eqn:E.
+  - split; [discriminate|]. destruct (find_name n r); discriminate.
+  - rewrite IH. destruct (find_name n r); split; congruence.
+Qed.
+
+Lemma kw_dict_all_unknown fv kw n v : In (n, v) kw -> find_name n fv = None -> kw_dict_all fv kw = None.
+Proof.
+  induction kw as [|[m w] r IH]; simpl; intros Hin Hn; [contradiction|].
+  destruct Hin as [E|Hin].
+  - inversion E; subst. apply named_nil_find in Hn. now rewrite Hn.
+  - rewrite (IH Hin Hn). now destruct (named m fv).
+Qed.
+
+(* a keyword binds EVERY free symbol that carries its name, and nothing else *)
+Lemma lookup_const xs v x : lookup (map (fun y => (y, v)) xs) x = if lmem x xs then Some v else None.
+Proof.
+  induction xs as [|y r IH]; simpl; auto. rewrite IH. unfold lmem in *. simpl.
+  destruct (existsb (leaf_eqb x) r); [now rewrite orb_true_r|]. rewrite orb_false_r. reflexivity.
+Qed.
+
+Lemma lookup_const_app xs v d x :
+  lookup (map (fun y => (y, v)) xs ++ d) x =
+  match lookup d x with Some w => Some w | None => if lmem x xs then Some v else None end.
+Proof. rewrite lookup_app, lookup_const. reflexivity. Qed.
+
+Lemma kw_dict_all_keys fv kw d x w :
+  kw_dict_all fv kw = Some d -> lookup d x = Some w -> In x fv /\ In (leaf_name x, w) kw.
+Proof.
+  revert d. induction kw as [|[n v] r IH]; intros d Hd Hl; cbn [kw_dict_all] in Hd; simpl.
+  - inversion Hd; subst. discriminate.
+  - destruct (named n fv) as [|y ys] eqn:En; [discriminate|]. remember (y :: ys) as xs eqn:Exs.
+    destruct (kw_dict_all fv r) as [d'|]; [|discriminate]. injection Hd as <-.
+    rewrite lookup_const_app in Hl. destruct (lookup d' x) as [w'|] eqn:E'.
+    + inversion Hl; subst. destruct (IH d' eq_refl E'). auto.
+    + destruct (lmem x xs) eqn:Em; [|discriminate]. inversion Hl; subst w.
+      apply lmem_In in Em. rewrite <- En in Em. apply named_In in Em. destruct Em as [H1 H2]. subst. auto.
+Qed.
+
+Lemma kw_dict_all_binds fv kw d n v x :
+  kw_dict_all fv kw = Some d -> NoDup (map fst kw) -> In (n, v) kw -> In x fv -> leaf_name x = n ->
+  lookup d x = Some v.
+Proof.
+  revert d. induction kw as [|[m w] r IH]; intros d Hd Hnd Hin Hx Hn; cbn [kw_dict_all] in Hd; simpl in Hnd, Hin; [contradiction|].
+  destruct (named m fv) as [|y ys] eqn:En; [discriminate|]. remember (y :: ys) as xs eqn:Exs.
+  destruct (kw_dict_all fv r) as [d'|] eqn:Ed; [|discriminate]. injection Hd as <-.
+  apply NoDup_cons_iff in Hnd. destruct Hnd as [Hm Hnd']. rewrite lookup_const_app.
+  destruct Hin as [E|Hin].
+  - injection E as -> ->. destruct (lookup d' x) as [w'|] eqn:E'.
+    + exfalso. destruct (kw_dict_all_keys _ _ _ _ _ Ed E') as [_ H]. apply Hm. apply (in_map fst) in H. simpl in H. now rewrite Hn in H.
+    + rewrite <- En.
+      assert (H : lmem x (named n fv) = true) by (apply lmem_In, named_In; auto). now rewrite H.
+  - now rewrite (IH d' eq_refl Hnd' Hin Hx Hn).
+Qed.
+
+
+Lemma free_var_ids_not_in_vars a x :
+  (forall y, In y (vars a) -> is_fun y = true) -> In x (free_vars_ids a) -> lmem x (vars a) = false.
+Proof.
+  intros Hf. unfold free_vars_ids, fields_ids, constants. rewrite in_app_iff, !filter_In.
+  intros [[_ H]|[_ H]].
+  - apply andb_true_iff in H. destruct H as [_ H]. now apply negb_true_iff.
+  - destruct (lmem x (vars a)) eqn:E; auto. apply lmem_In in E. apply Hf in E. destruct x; discriminate.
+Qed.
+
+Lemma true_free_is_free_ids a x : atoms_ok a -> true_free a x -> In x (free_vars_ids a).
+Proof.
+  intros Ha [Hb [[Hf Hv]|Hc]]; unfold free_vars_ids; apply in_or_app.
+  - left. unfold fields_ids. apply filter_In. split; [apply Ha; auto|]. rewrite Hf. simpl. apply negb_true_iff.
+    destruct (lmem x (vars a)) eqn:E; auto. apply lmem_In in E. contradiction.
+  - right. unfold constants. apply filter_In. auto.
+Qed.
+
+Lemma call_ids_exact a pos kw b :
+  call_ids a pos kw = Ok b -> NoDup (vars a) -> NoDup (map fst kw) -> (forall x, In x (vars a) -> is_fun x = true) ->
+  exists vals S, values_of a pos = Some vals /\ length vals = length (vars a) /\
+    b = map_body (subst_sim S) (f_body a) /\
+    (forall i l v, nth_error (vars a) i = Some l -> nth_error vals i = Some v -> subst_sim S (ELeaf l) = v) /\
+    (atoms_ok a -> forall x v, true_free a x -> In (leaf_name x, v) kw -> subst_sim S (ELeaf x) = v) /\
+    (forall l, ~ In l (vars a) -> ~ (In l (free_vars_ids a) /\ In (leaf_name l) (map fst kw)) ->
+               subst_sim S (ELeaf l) = ELeaf l).
+Proof.
+  intros H Hnd Hkw Hfun. destruct (call_with_simultaneous _ _ a pos kw b H) as [vals [d [Hv [Hd [Hlen [Eb _]]]]]].
+  exists vals, (d ++ combine (vars a) vals). repeat split; auto.
+  - intros i l v Hl Hvi. apply subst_sim_hit. rewrite lookup_app.
+    now rewrite (lookup_combine_nth _ _ _ _ _ Hnd Hl Hvi).
+  - intros Ha x v Hx Hin. pose proof (true_free_is_free_ids a x Ha Hx) as Hfx.
+    apply subst_sim_hit. rewrite lookup_app.
+    rewrite (lookup_combine_none _ vals _ (free_var_ids_not_in_vars a x Hfun Hfx)).
+    eapply kw_dict_all_binds; eauto.
+  - intros l Hl Hk. apply subst_sim_miss. rewrite lookup_app. rewrite lookup_combine_none.
+    + destruct (lookup d l) as [w|] eqn:E; auto. exfalso. apply Hk.
+      destruct (kw_dict_all_keys _ _ _ _ _ Hd E) as [H1 H2]. split; auto. now apply (in_map fst) in H2.
+    + destruct (lmem l (vars a)) eqn:E; auto. apply lmem_In in E. contradiction.
+Qed.
+
+(* under the guard the code and the proposed repair coincide *)
+Lemma lmem_all_same xs x k : xs <> [] -> (forall y, In y xs -> y = x) -> lmem k xs = leaf_eqb k x.
+Proof.
+  intros Hne Hall. destruct (leaf_eqb k x) eqn:E.
+  - apply leaf_eqb_eq in E. subst. apply lmem_In. destruct xs as [|y r]; [congruence|].
+    left. apply Hall. now left.
+  - destruct (lmem k xs) eqn:E'; auto. apply lmem_In in E'. apply Hall in E'. subst. now rewrite leaf_eqb_refl in E.
+Qed.
+
+Lemma kw_dict_all_equiv fv kw : unambiguous fv ->
+  match kw_dict_all fv kw, kw_dict fv kw with
+  | Some d, Some d' => forall k, lookup d k = lookup d' k
+  | None, None => True
+  | _, _ => False
+  end.
+Proof.
+  intros Hu. induction kw as [|[n v] r IH]; cbn [kw_dict kw_dict_all]; [reflexivity|].
+  destruct (find_name n fv) as [x|] eqn:Ef.
+  - destruct (named n fv) as [|y ys] eqn:En; [apply named_nil_find in En; congruence|].
+    remember (y :: ys) as xs eqn:Exs.
+    destruct (kw_dict_all fv r) as [d|], (kw_dict fv r) as [d'|]; auto.
+    intros k. rewrite lookup_const_app. simpl. rewrite IH.
+    destruct (lookup d' k); auto. rewrite (lmem_all_same xs x k); auto.
+    + subst xs. discriminate.
+    + intros z Hz. rewrite <- En in Hz. apply named_In in Hz. destruct Hz as [Hz1 Hz2].
+      apply find_name_In in Ef. destruct Ef as [Hx1 Hx2]. apply Hu; auto. congruence.
+  - apply named_nil_find in Ef. rewrite Ef.
+    destruct (kw_dict_all fv r), (kw_dict fv r); auto.
+Qed.
+
+Lemma fields_agree a : names_identify (form_leaves a) -> fields_ids a = fields a.
+Proof.
+  intros G. unfold fields, fields_ids. apply filter_ext_in. intros l Hl.
+  destruct (is_fun l) eqn:Hf; auto. simpl. f_equal.
+  destruct (pymem l (vars a)) eqn:E.
+  - unfold pymem in E. apply existsb_exists in E. destruct E as [y [Hy Hp]].
+    destruct (leaf_pyeq_name l y Hp Hf) as [Hfy Hn]. apply lmem_In.
+    assert (l = y); [|now subst]. apply G; auto.
+    + unfold form_leaves. rewrite !in_app_iff. auto.
+    + unfold form_leaves. rewrite !in_app_iff. auto.
+    + unfold sym_leaf. now rewrite Hf.
+    + unfold sym_leaf. now rewrite Hfy.
+  - now apply pymem_lmem.
+Qed.
+
+Lemma call_ids_call a pos kw : names_identify (form_leaves a) -> call_ids a pos kw = call a pos kw.
+Proof.
+  intros G. unfold call_ids, call, call_with, free_vars_ids. rewrite (fields_agree a G). fold (free_vars a).
+  destruct (values_of a pos) as [vals|]; auto.
+  pose proof (kw_dict_all_equiv (free_vars a) kw (names_identify_unambiguous a G)) as H.
+  destruct (kw_dict_all (free_vars a) kw) as [d|], (kw_dict (free_vars a) kw) as [d'|]; try contradiction; auto.
+  destruct (count_ok a pos); auto. f_equal. apply map_body_ext. apply subst_sim_ext.
+  intros l. rewrite !lookup_app. now rewrite H.
 Qed.
 
 (* ------------------------------------------------------------------ a concrete interpretation (non-vacuity) *)
@@ -700,10 +1214,10 @@ Definition Zinterp : interp :=
 (* dx1(u)*v + u*dx1(v): flag true;  dx1(u)*v: flag false and the meaning does change *)
 Definition sym_form : form :=
   mkForm Bilinear [wu] [wv]
-    [("dom:Omega", EAdd [EMul [EOp "dx1" [ELeaf wu]; ELeaf wv]; EMul [ELeaf wu; EOp "dx1" [ELeaf wv]]])].
+    [("dom:Omega", EAdd [EMul [EOp "dx1" [ELeaf wu]; ELeaf wv]; EMul [ELeaf wu; EOp "dx1" [ELeaf wv]]])] [wu; wv].
 Definition nonsym_form : form :=
-  mkForm Bilinear [wu] [wv] [("dom:Omega", EMul [EOp "dx1" [ELeaf wu]; ELeaf wv])].
-Definition zrho (l : leaf) : Z := match l with LFun _ "u" => 1%Z | LFun _ "v" => 2%Z | _ => 3%Z end.
+  mkForm Bilinear [wu] [wv] [("dom:Omega", EMul [EOp "dx1" [ELeaf wu]; ELeaf wv])] [wu; wv].
+Definition zrho (l : leaf) : Z := match l with LFun _ "u" _ => 1%Z | LFun _ "v" _ => 2%Z | _ => 3%Z end.
 
 Lemma sym_form_flag : is_symmetric sym_form = true.
 Proof. vm_compute. reflexivity. Qed.
@@ -712,7 +1226,87 @@ Lemma nonsym_form_changes :
   <> sem_body Zinterp zrho (f_body nonsym_form).
 Proof. vm_compute. discriminate. Qed.
 Lemma nonsym_form_flag : is_symmetric nonsym_form = false.
-Proof. exact (meaning_changes_flag_false Zinterp nonsym_form zrho nonsym_form_changes). Qed.
+Proof. vm_compute. reflexivity. Qed.
+
+(* ------------------------------------------------------------------ same names, different spaces: witnesses *)
+Definition wuW := LFun false "u" "W".  Definition wvW := LFun false "v" "W".
+Definition wfW := LFun false "f" "W".  Definition wg := LFun false "g" "V".
+Definition wp := LFun false "p" "V".   Definition wq := LFun false "q" "V".
+
+(* a = BilinearForm((u, v), integral(f * dot(grad(u), grad(v)) + u*v))  with u, v, f in V;  a(u_W, v_W) *)
+Definition twin_call_form : form :=
+  mkForm Bilinear [wu] [wv]
+    [("dom:Omega", EAdd [EMul [ELeaf wf; EOp "Dot" [EOp "Grad" [ELeaf wu]; EOp "Grad" [ELeaf wv]]]; EMul [ELeaf wu; ELeaf wv]])]
+    [wf; wu; wv].
+
+Lemma twin_call :
+  call twin_call_form [PVal (ELeaf wuW); PVal (ELeaf wvW)] [] =
+  Ok [("dom:Omega", EAdd [EMul [ELeaf wf; EOp "Dot" [EOp "Grad" [ELeaf wuW]; EOp "Grad" [ELeaf wvW]]]; EMul [ELeaf wuW; ELeaf wvW]])].
+Proof. reflexivity. Qed.
+
+(* the shortcut "drop the pairs with old == new" leaves the declared functions in place *)
+Lemma skip_equal_keeps_arguments :
+  call_skip_equal twin_call_form [PVal (ELeaf wuW); PVal (ELeaf wvW)] [] = Ok (f_body twin_call_form) /\
+  call_skip_equal twin_call_form [PVal (ELeaf wuW); PVal (ELeaf wvW)] [] <>
+  call twin_call_form [PVal (ELeaf wuW); PVal (ELeaf wvW)] [] /\
+  In wu (body_leaves (f_body twin_call_form)).
+Proof. split; [reflexivity|]. split; [rewrite twin_call; vm_compute; discriminate|]. simpl. auto. Qed.
+
+(* (1) a free field that carries the name of a declared argument: integrand u_W * u * v.
+   REFUTED: "a keyword that names a free field of the form replaces it" - the code refuses the keyword *)
+Definition twin_arg_form : form :=
+  mkForm Bilinear [wu] [wv] [("dom:Omega", EMul [ELeaf wuW; ELeaf wu; ELeaf wv])] [wuW; wu; wv].
+
+Lemma field_named_like_argument_refuted :
+  true_free twin_arg_form wuW /\ atoms_ok twin_arg_form /\
+  call twin_arg_form [PVal (ELeaf wp); PVal (ELeaf wq)] [("u", ELeaf wg)] = Err ErrUnknownKw /\
+  call_ids twin_arg_form [PVal (ELeaf wp); PVal (ELeaf wq)] [("u", ELeaf wg)]
+    = Ok [("dom:Omega", EMul [ELeaf wg; ELeaf wp; ELeaf wq])].
+Proof.
+  split; [|split; [|split; reflexivity]].
+  - split; [simpl; auto|]. left. split; [reflexivity|]. simpl. intros [H|[H|[]]]; discriminate.
+  - intros l. simpl. split.
+    + intros [<-|[<-|[<-|[]]]]; split; auto.
+    + intros [Hf H]. repeat (destruct H as [<-|H]; auto); try contradiction.
+Qed.
+
+(* (2), (3) two free fields with one name: integrand f_V * u * dx1(v) + f_W * dx1(u) * v; both iteration orders of
+   the set of atoms.  REFUTED: "a keyword replaces every free field that carries its name" - one of them survives,
+   WHICH one depends on the iteration order of a Python set (the hash seed) *)
+Definition twin_field_body : body :=
+  [("dom:Omega", EAdd [EMul [ELeaf wf; ELeaf wu; EOp "dx1" [ELeaf wv]]; EMul [ELeaf wfW; EOp "dx1" [ELeaf wu]; ELeaf wv]])].
+Definition twin_field_form : form := mkForm Bilinear [wu] [wv] twin_field_body [wf; wfW; wu; wv].
+Definition twin_field_form' : form := mkForm Bilinear [wu] [wv] twin_field_body [wfW; wf; wu; wv].
+
+Lemma keyword_binds_one_of_several_refuted :
+  true_free twin_field_form wf /\ true_free twin_field_form wfW /\
+  (exists b, call twin_field_form [PVal (ELeaf wu); PVal (ELeaf wv)] [("f", ELeaf wg)] = Ok b /\ In wf (body_leaves b)) /\
+  (exists b, call twin_field_form' [PVal (ELeaf wu); PVal (ELeaf wv)] [("f", ELeaf wg)] = Ok b /\ In wfW (body_leaves b)) /\
+  (exists b, call_ids twin_field_form [PVal (ELeaf wu); PVal (ELeaf wv)] [("f", ELeaf wg)] = Ok b /\
+             forall x, In x (body_leaves b) -> leaf_name x <> "f").
+Proof.
+  split; [|split; [|split; [|split]]].
+  - split; [simpl; auto|]. left. split; [reflexivity|]. simpl. intros [H|[H|[]]]; discriminate.
+  - split; [simpl; auto 10|]. left. split; [reflexivity|]. simpl. intros [H|[H|[]]]; discriminate.
+  - eexists. split; [reflexivity|]. simpl. auto.
+  - eexists. split; [reflexivity|]. simpl. auto 10.
+  - eexists. split; [reflexivity|]. simpl. intros x H.
+    repeat (destruct H as [<-|H]; [simpl; discriminate|]). contradiction.
+Qed.
+
+Definition zrho2 (l : leaf) : Z :=
+  match l with
+  | LFun _ "u" _ => 1%Z | LFun _ "v" _ => 2%Z | LFun _ "f" "V" => 5%Z | LFun _ "f" "W" => 7%Z | _ => 3%Z
+  end.
+
+(* REFUTED: "a true flag implies that exchanging trial and test values does not change the value" *)
+Lemma symmetry_flag_refuted :
+  is_symmetric twin_field_form = true /\ is_symmetric_ids twin_field_form = false /\
+  sem_body Zinterp (upd Zinterp zrho2 (exch_dict twin_field_form)) (f_body twin_field_form)
+    <> sem_body Zinterp zrho2 (f_body twin_field_form).
+Proof.
+  split; [vm_compute; reflexivity|]. split; [vm_compute; reflexivity|]. vm_compute. discriminate.
+Qed.
 
 (* ------------------------------------------------------------------ terminal level: tsubst is evaluation in the updated environment *)
 From V Require Import Core.Terminal Core.TerminalP Core.DField.
